@@ -105,6 +105,6 @@ def run(prog, ctx):
     ctx.rule("R06.2", "drop_misaligned_sectors keeps, on both operands, exactly the sectors whose contracted sub-sector is shared, and "
                       "shrinks the charge tables accordingly")
     n = check_contraction(prog, ctx)
-    check_alignment_semantics(prog, ctx)
+    ctx.guarded("R06.2", prog.func("symmray.abelian_core:drop_misaligned_sectors"), check_alignment_semantics, prog, ctx)
     ctx.extra_coverage = {"contraction_cases_evaluated": n}
     ctx.minimum("K2", 1, "fused strategy")
